@@ -33,11 +33,18 @@ LEVEL_TEXT = ("Lean theorems for every label list (no bound) of an LTS of watche
               "watch is alive' = scheduler not closed and no worker of the key failed): stream entry <=> exactly one live worker, "
               "arrived = processed++inflight++backlog (lossless_ordered; drain_lossless extends it through the graceful drain "
               "up to scheduler.close()), key_progress (a key with work can move by its own enabled segment unless all slots are "
-              "taken or an earlier-enqueued worker is at the head), key_done_complete / key_drained_complete. Liveness is "
+              "taken or an earlier-enqueued worker is at the head), key_done_complete / key_drained_complete. The scope guard "
+              "'no worker of the key failed' is the property's own: failure_ends_watch (a failure that drops queued events "
+              "ends the watch: the dead task can only `left`, which sets closing; then no arrive/miss is enabled). "
+              "watcher_never_blocks / arrival_frame: in ANY state of a live watch every event of every key is taken over at "
+              "once and touches nothing but its own backlog (no head-of-line blocking in the multiplexer). Liveness is "
               "'enabled + bounded', i.e. it needs the fairness assumptions listed in ASSUMPTIONS (processors return, timers fire, "
               "the loop runs enabled segments). The event->key map (bookmark filter + get_uid) is a small separate model "
               "(keyOf_spec) tied differentially on an exhaustive grid. Tie of the LTS: trace acceptance of the real "
-              "queueing.watcher under virtual time incl. arrivals exactly on the idle deadline in both tie orders. This kopf has "
+              "queueing.watcher under virtual time incl. arrivals exactly on the idle deadline in both tie orders; the keys are "
+              "the ones the real watcher uses (observed at the queues, not re-computed); two watchers in one loop are two "
+              "instances of the LTS (each trace replayed on its own); the watcher must come back to the stream within the "
+              "same virtual instant. This kopf has "
               "no batching in worker() (batch_window is deprecated and ignored), so 'processed' means every single event.")
 TIE = "A: every atomic segment of the real watcher/worker/Scheduler logged as a label + state snapshot, replayed by the Lean LTS"
 THEOREMS = [
@@ -64,24 +71,38 @@ THEOREMS = [
     ("Kopf.Props.C01", "Kopf.C01.pendingQ_fifo"),
     ("Kopf.Props.C01", "Kopf.C01.pending_never_overtaken"),
     ("Kopf.Props.C01", "Kopf.C01.frame_other_key"),
+    ("Kopf.Props.C01", "Kopf.C01.watcher_never_blocks"),
+    ("Kopf.Props.C01", "Kopf.C01.arrival_frame"),
+    ("Kopf.Props.C01", "Kopf.C01.failure_ends_watch"),
+    ("Kopf.Props.C01", "Kopf.C01.no_arrival_when_closing"),
     ("Kopf.Props.C01", "Kopf.C01.keyOf_spec"),
     ("Kopf.Props.C01", "Kopf.C01.buggy_loses"),
 ]
 # not counted: quiescent_run_complete (corollary), independent_spawn (unfolds canSpawn), and in Lemmas/C01_Frame.lean
 # limit_const, take_reads_own_component, finish_reads_own_component. `take` and `timeoutTake` are ONE transition of the
 # model (same guard, same effect): the pre-d07cc0b re-wait is recognised by the harness (anomaly `retry`), not by Lean.
-RULE = ("scripted watch streams of 1-6 objects (with/without uid), 2-12 events, idle_timeout/worker_limit/exit_timeout/"
+RULE = ("scripted watch streams of 1-6 objects (crowds: 12-40) (with/without uid), 2-12 events, idle_timeout/worker_limit/exit_timeout/"
         "consistency scripted, processor durations incl. 0 and idle±1, raising processors, watcher cancellation; arrivals "
         "placed EXACTLY on last_activity+idle_timeout and ±1 tick (adaptive: read off the worker's own wait_for), each "
         "stream run under both orders of same-instant timers (fifo/lifo; rng in thorough). A case is distinct by its "
         "label-name/key sequence; non-trivial when it contains a ttake (timeout with a filled queue: the found event is taken in the same segment), a same-instant "
         "retire+re-insert, an arrival during busy, a limit-blocked pending worker, a kill, a failure or a drained EOS. "
-        "exit_timeout incl. 0 and None, a second cancellation during the drain. Plus an exhaustive grid of identities through "
+        "exit_timeout incl. 0 and None, a second cancellation during the drain, cancellation at the n-th suspension of the "
+        "watcher after an event (same instant). Floods: 40-150 (thorough: -400) events of one object queued behind a slow "
+        "processor while other objects get events (sent on an absolute schedule: an event that the watcher takes late counts "
+        "from when it was sent). Re-created objects (same name/namespace, new uid). A failing processor with events queued "
+        "behind it and later events of other objects. In 12% of the scenarios a SECOND watcher (another resource, own stream, "
+        "often ending or cancelled while the first one is busy) runs in the same loop. Plus an exhaustive grid of identities through "
         "the real get_uid vs the Lean keyOf (not counted in distinct_nontrivial).")
 TRUSTED = ["CPython asyncio (Queue, wait_for, timeouts, Condition, Task cancellation) — exercised, not modelled",
            "harness/props/sim_c01.py hook placement: each label is logged inside the atomic segment it names",
            "the actual order CPython gives to same-instant timers is not predicted: both orders are executed"]
 ASSUMPTIONS = ["the Kubernetes API never reorders events of one object (the scripted stream is the delivered order)",
+               "per-object backlogs of up to 150 (thorough: 400) events are exercised; a loss or a stall that only begins beyond "
+               "that depth is not seen by the runs (the model's backlog is an unbounded list: watcher_never_blocks)",
+               "an idle worker may hold its worker_limit slot for idle_timeout after its last activity, or — when "
+               "persistence.consistency_timeout is set — for that long at most (upper bound; the exact consistency deadline is "
+               "C07's subject); one that lingers longer does not excuse another object's waiting (oracle O4/O3b)",
                "FAIRNESS (needed by every 'eventually' reading of internal_run_bounded / key_work_bounded / key_progress; the "
                "model classifies these labels as internal): (1) every processor call returns or raises (`finish`/`fail`); "
                "(2) timers fire: an idle wait_for times out (`retire`/`timeoutTake`); (3) the event loop eventually runs every "
@@ -100,7 +121,9 @@ ASSUMPTIONS = ["the Kubernetes API never reorders events of one object (the scri
                "contain '//' and are not literally '-'; creationTimestamp is a string ({'uid': None} makes all such objects share "
                "the key None; a non-string creationTimestamp raises TypeError in get_uid)",
                "processors raise Exception subclasses only (a BaseException such as SystemExit escaping a worker task is not generated)",
-               "one watcher per object: C01 is per `watcher()` call (its own `streams` dict and Scheduler). kopf starts one "
+               "one watcher per object: C01 is per `watcher()` call (its own `streams` dict and Scheduler — CHECKED: scenarios "
+               "with two watchers in one loop, each judged by the oracle and replayed by the model on its own, with the "
+               "scheduler's containers observed where the code keeps them, per instance or per class). kopf starts one "
                "watcher per (resource, namespace) and refuses cluster-wide + namespaced together (running.py raises TypeError); "
                "the same object served under two API versions/resources is two objects for the multiplexer. Overlapping "
                "watch scopes are C19/C20's subject, not modelled here",
@@ -121,8 +144,8 @@ POLICIES_T = ("fifo", "lifo", "rng")
 def drain_bound(scn: dict) -> int:
     st = scn["settings"]
     evs = [i for i in scn["stream"] if "obj" in i]
-    return (sum(i.get("dur", 0) for i in evs) + (len(evs) + 2) * (st["idle_timeout"] + (st.get("consistency_timeout") or 0))
-            + 64)
+    return (sum(max(0, i.get("dur", 0)) for i in evs)
+            + (len(evs) + 2) * (max(0, st["idle_timeout"]) + (st.get("consistency_timeout") or 0)) + 64)
 
 
 def oracle(scn: dict, log: dict) -> list[tuple[str, dict]]:
@@ -155,7 +178,8 @@ def oracle(scn: dict, log: dict) -> list[tuple[str, dict]]:
     # O6 — one object <-> one per-object worker key (get_uid incl. its fallback)
     obj_keys: dict[int, set] = {}
     for d in delivered:
-        obj_keys.setdefault(d["obj"], set()).add(d["k"])
+        if d["k"] is not None:          # None: the watcher never put it into any queue (judged by O3/O3b)
+            obj_keys.setdefault(d["obj"], set()).add(d["k"])
     for c in calls:
         if c["obj"] is not None and c["k"] is not None:
             obj_keys.setdefault(c["obj"], set()).add(c["k"])
@@ -247,14 +271,27 @@ def oracle(scn: dict, log: dict) -> list[tuple[str, dict]]:
     change_points = sorted({i["t_spawn"] for i in insts if i["t_spawn"] is not None}
                            | {i["t_left"] for i in insts if i["t_left"] is not None})
 
-    def others_at_end_of(t: int, k: int) -> int:
-        n = 0
-        for i in insts:
-            if i["k"] == k or i["t_spawn"] is None or i["t_spawn"] > t:
-                continue
-            if i["t_left"] is None or i["t_left"] > t:
-                n += 1
-        return n
+    # A worker task occupies a slot of the limit legitimately while it processes an event, and while it idles for
+    # at most idle_timeout after its last activity (or up to the consistency deadline, which is at most
+    # consistency_timeout after it). One that lingers longer does not excuse anybody's waiting.
+    allow = max(st["idle_timeout"], st.get("consistency_timeout") or 0, 0)
+    calls_by_inst: dict[tuple, list[dict]] = {}
+    for c in calls:
+        calls_by_inst.setdefault((c["k"], c["g"]), []).append(c)
+
+    def holds_slot(i: dict, t: int) -> bool:
+        if i["t_spawn"] is None or i["t_spawn"] > t or (i["t_left"] is not None and i["t_left"] <= t):
+            return False
+        last = i["t_spawn"]
+        for c in calls_by_inst.get((i["k"], i["g"]), []):
+            if c["t0"] <= t and (c["t1"] is None or c["t1"] > t):
+                return True
+            if c["t1"] is not None and c["t1"] <= t:
+                last = max(last, c["t1"])
+        return t < last + allow
+
+    def others_at_end_of(t: int, k: Any) -> int:
+        return sum(1 for i in insts if i["k"] != k and holds_slot(i, t))
 
     # O3b — the strict loss clause, independent of tail / exit_timeout: an event that was NEVER handed to
     #       the processor must have an excuse. Its turn (arrival, predecessor of the same object ended)
@@ -284,6 +321,31 @@ def oracle(scn: dict, log: dict) -> list[tuple[str, dict]]:
                                      f"although its turn came at t={expected} and a worker slot was free at t={free[0]} "
                                      f"(limit={limit}, scheduler closed at t={t_close})")
             break
+
+    # O3c — a failed processor drops what is queued behind it for the same object (the dying worker takes its
+    #       backlog along). That is only "not while the watch is alive" if the failure ENDS the watch: nothing
+    #       more may be taken from the stream once the failed task has been noticed.
+    inst_by = {(i["k"], i["g"]): i for i in insts}
+    for c in raised:
+        i = inst_by.get((c["k"], c["g"]))
+        p_left = i["p_left"] if i is not None else None
+        if p_left is None:
+            continue
+        dropped = [d for d in by_obj_deliv.get(c["obj"], []) if d["p"] < p_left and d["seq"] > c["seq"] and d["seq"] not in started]
+        later = [d for d in delivered if d["p"] > p_left]
+        went_on = bool(later) or (se is not None and se["p"] > p_left)
+        if dropped and went_on:
+            fail("lost", f"object {c['obj']}: events {[d['seq'] for d in dropped]} queued behind event {c['seq']} (whose processing "
+                         f"failed at t={c['t1']}) were dropped, and the watch went on"
+                         + (f" (event {later[0]['seq']} was taken from the stream at t={later[0]['t_pull']})" if later else
+                            " (the stream was read to its end)"))
+
+    # O3d — nobody but `scheduler.close()` (the very end of the watcher) may abort a processor
+    close_p = log.get("close_p")
+    for c in calls:
+        if c["end"] == "cancelled" and (close_p is None or c["p1"] < close_p):
+            fail("lost", f"object {c['obj']}: the processing of event {c['seq']} was cancelled at t={c['t1']} although this "
+                         f"watcher had not called scheduler.close() yet (the watch was alive; whatever was queued behind is gone)")
 
     for o, cs in by_obj_calls.items():
         prev_end = None
@@ -315,13 +377,71 @@ def oracle(scn: dict, log: dict) -> list[tuple[str, dict]]:
 # =================================================================================================
 # Generator
 # =================================================================================================
-KINDS = ["deadline", "deadline", "deadline", "burst", "limit", "limit", "shutdown", "shutdown", "raise", "mixed"]
+KINDS = ["deadline", "deadline", "deadline", "burst", "limit", "limit", "shutdown", "shutdown", "raise", "mixed", "flood",
+         "crowd"]
+FLOODS_Q = (40, 40, 70, 150)
+FLOODS_T = (40, 70, 150, 400)
 
 
-def gen_scenario(rng: random.Random, force_limit: Any = "any") -> dict:
+def gen_peer(rng: random.Random, idle: int) -> dict:
+    """A second watcher (another resource) in the same loop: short stream, and it often ENDS (stream over or
+    cancelled: depletion + scheduler.close()) while the first watcher's workers are busy."""
+    n_obj = rng.choice([1, 1, 2])
+    stream = []
+    for _ in range(rng.randint(1, 5)):
+        stream.append({"obj": rng.randrange(n_obj), "wait": ["delay", rng.choice([0, 0, 1, 2, idle, 7])],
+                       "hops": rng.choice([0, 0, 1]), "dur": rng.choice([0, 1, 2, 64, 300, max(1, idle)]),
+                       "type": rng.choice(["ADDED", "MODIFIED", None])})
+    peer: dict[str, Any] = {"objects": [{"uid": f"peer-uid-{i}"} for i in range(n_obj)], "stream": stream,
+                            "start": rng.choice([0, 0, 0, 1, 50]), "tail": rng.choice([0, 0, 5, 64, 400])}
+    if rng.random() < 0.4:
+        peer["cancel"] = {"mode": "abs", "at": rng.choice([1, 2, 5, 20, 64, 150, 400])}
+    return peer
+
+
+def gen_crowd(rng: random.Random, n_obj: int, idle: int) -> list[dict]:
+    """Many objects (tens), a few events each, mostly at once: a long queue of pending workers under a limit."""
+    stream: list[dict] = []
+    order = list(range(n_obj))
+    rng.shuffle(order)
+    for o in order:
+        stream.append({"obj": o, "wait": ["delay", rng.choice([0, 0, 0, 1])], "hops": rng.choice([0, 0, 1]),
+                       "dur": rng.choice([0, 1, 3, max(1, idle)]), "type": "ADDED"})
+    for _ in range(rng.randint(0, n_obj // 2)):
+        o = rng.randrange(n_obj)
+        stream.append({"obj": o, "wait": ["delay", rng.choice([0, 0, 1, 2, idle])] if rng.random() < 0.8 else ["deadline", o, rng.choice([-1, 0, 1])],
+                       "hops": 0, "dur": rng.choice([0, 1, 2]), "type": "MODIFIED"})
+    return stream
+
+
+def gen_flood(rng: random.Random, scn_objects: int, idle: int, sizes: tuple) -> list[dict]:
+    """One object is changed much faster than it is handled (tens to hundreds of events queue up behind a slow
+    processor) while other objects get events of their own: those must neither wait for the flood nor be lost,
+    and every event of the flooded object is still processed, in order."""
+    n = rng.choice(sizes)
+    flooded = rng.randrange(scn_objects)
+    stream: list[dict] = [{"obj": flooded, "wait": ["delay", rng.choice([0, 1])], "hops": 0,
+                           "dur": rng.choice([100, 300, 1000]), "type": "ADDED"}]
+    others = [o for o in range(scn_objects) if o != flooded]
+    for j in range(n):
+        if others and rng.random() < 0.04:
+            stream.append({"obj": rng.choice(others), "wait": ["delay", rng.choice([0, 1, 2])], "hops": rng.choice([0, 1]),
+                           "dur": rng.choice([0, 1, 5]), "type": "MODIFIED"})
+        stream.append({"obj": flooded, "wait": ["delay", 0 if rng.random() < 0.9 else 1], "hops": 0,
+                       "dur": rng.choice([0, 0, 0, 1]), "type": "MODIFIED"})
+    for _ in range(rng.randint(1, 4)):
+        o = rng.choice(others) if others else flooded
+        stream.append({"obj": o, "wait": ["delay", rng.choice([0, 1, 3, idle])] if rng.random() < 0.7 else ["deadline", o, rng.choice([-1, 0, 1])],
+                       "hops": rng.choice([0, 1]), "dur": rng.choice([0, 1, 7]), "type": "MODIFIED"})
+    return stream
+
+
+def gen_scenario(rng: random.Random, force_limit: Any = "any", floods: tuple = FLOODS_Q) -> dict:
     kind = rng.choice(KINDS)
     idle = rng.choice([0, 0, -1, 1, 1, 2, 3, 8, 32, 64, 64, 256, 1024])
-    n_obj = rng.choice([1, 1, 2, 2, 3, 4, 6]) if kind not in ("limit",) else rng.choice([2, 3, 4, 5, 6])
+    n_obj = rng.choice([1, 1, 2, 2, 3, 4, 6]) if kind not in ("limit", "flood") else rng.choice([2, 3, 4, 5, 6])
+    if kind == "crowd":
+        n_obj = rng.choice([12, 20, 40])
     objects: list[dict] = []
     for i in range(n_obj):
         if rng.random() < 0.25:
@@ -332,15 +452,25 @@ def gen_scenario(rng: random.Random, force_limit: Any = "any") -> dict:
                 nouid["creationTimestamp"] = rng.choice(["2020-01-01T00:00:00Z", None])
             objects.append({"nouid": nouid})
         else:
-            objects.append({"uid": f"uid-{i}-é" if rng.random() < 0.1 else f"uid-{i}"})
+            o: dict[str, Any] = {"uid": f"uid-{i}-é" if rng.random() < 0.1 else f"uid-{i}"}
+            named = [x for x in objects if "uid" in x]
+            if named and rng.random() < 0.2:
+                # a re-created object: the name (and namespace) of an earlier one, a uid of its own
+                twin = rng.choice(named)
+                twin.setdefault("name", "shared-" + twin["uid"])
+                twin.setdefault("namespace", rng.choice(["ns", None]))
+                o["name"], o["namespace"] = twin["name"], twin["namespace"]
+            objects.append(o)
     if force_limit != "any":
         limit = force_limit
+    elif kind == "crowd":
+        limit = rng.choice([None, 1, 2, 3, 8])
     elif kind == "limit":
         limit = rng.choice([1, 1, 2])
     else:
         limit = rng.choice([None, None, None, 1, 2, 3])
     cons = rng.choice([3, 64, idle + 1]) if rng.random() < 0.15 else None
-    p_deadline = {"deadline": 0.6, "burst": 0.1, "limit": 0.35, "shutdown": 0.25, "raise": 0.2, "mixed": 0.35}[kind]
+    p_deadline = {"deadline": 0.6, "burst": 0.1, "limit": 0.35, "shutdown": 0.25, "raise": 0.2, "mixed": 0.35, "flood": 0.0, "crowd": 0.0}[kind]
     n_ev = rng.randint(2, 12)
     durs = [0, 0, 1, 2, max(1, idle - 1), idle, idle + 1, 64, 300, 2 * idle]
     delays = [0, 0, 0, 1, 2, max(0, idle - 1), idle, idle + 1, 2 * idle, 7, 100]
@@ -362,11 +492,20 @@ def gen_scenario(rng: random.Random, force_limit: Any = "any") -> dict:
             item["dhops"] = rng.choice([1, 2, 3])
         if kind == "raise" and rng.random() < 0.25:
             item["raise"] = True
+            if rng.random() < 0.5:      # with something queued behind it
+                item["dur"] = max(1, item["dur"])
+                stream.append(item)
+                used.append(obj)
+                item = {"obj": obj, "wait": ["delay", 0], "hops": 0, "dur": rng.choice([0, 1, 5]), "type": "MODIFIED"}
         if cons is not None and rng.random() < 0.4:
             item["ver"] = str(rng.choice([n + 2, n + 3, 999]))
         item["type"] = rng.choice(["ADDED", "MODIFIED", "MODIFIED", "DELETED", None])
         stream.append(item)
         used.append(obj)
+    if kind == "flood":
+        stream = gen_flood(rng, n_obj, idle, floods)
+    if kind == "crowd":
+        stream = gen_crowd(rng, n_obj, idle)
     scn: dict[str, Any] = {
         "kind": kind,
         "settings": {"idle_timeout": idle, "worker_limit": limit,
@@ -384,6 +523,9 @@ def gen_scenario(rng: random.Random, force_limit: Any = "any") -> dict:
             d = stream[i].get("dur", 0)
             scn["cancel"] = {"mode": "after_event", "index": i,
                              "delta": rng.choice([0, 0, 1, max(0, d - 1), d, d + 1, d + idle, d + idle + 1, idle])}
+            if rng.random() < 0.5:
+                # at the n-th suspension of the watcher after it was given the event (same instant)
+                scn["cancel"] = {"mode": "after_event", "index": i, "soon": rng.choice([0, 0, 0, 1, 2, 3])}
         else:
             scn["cancel"] = {"mode": "abs", "at": rng.randint(0, max(1, bound // 3))}
         scn["tail"] = rng.choice([0, 5, bound])
@@ -391,6 +533,13 @@ def gen_scenario(rng: random.Random, force_limit: Any = "any") -> dict:
             scn["cancel2"] = rng.choice([0, 1, 2, idle, 64])
     else:
         scn["tail"] = bound if rng.random() < 0.8 else rng.choice([0, 1, idle, idle + 1])
+    if rng.random() < 0.12:
+        scn["peer"] = gen_peer(rng, idle)
+    if rng.random() < 0.15:
+        # opaque, non-monotone resourceVersions (a re-list, another API server, a restored etcd)
+        for it in scn["stream"]:
+            if "obj" in it:
+                it["rv"] = rng.choice([rng.randrange(1, 60), rng.randrange(1, 60), "9" * rng.randint(1, 4), "abc", ""])
     return scn
 
 
@@ -441,22 +590,52 @@ def run_one(scn: dict, policy: str) -> dict:
     return simulate(scn, policy)
 
 
+def watcher_logs(scn: dict, log: dict) -> list[tuple[str, dict, dict]]:
+    """(name, sub-scenario, log) of every watcher of the run"""
+    out = [("main", scn, log)]
+    if log.get("peer") is not None:
+        out.append(("peer", dict(scn["peer"], settings=scn["settings"]), log["peer"]))
+    return out
+
+
+def oracle_all(scn: dict, log: dict) -> list[tuple[str, dict]]:
+    bad: list[tuple[str, dict]] = []
+    for name, sub, lg in watcher_logs(scn, log):
+        for what, sig in oracle(sub, lg):
+            bad.append((what if name == "main" else f"[second watcher] {what}", sig))
+    return bad
+
+
 def evaluate(scn: dict, policy: str) -> dict:
     """simulate + oracle + what the tie needs; a plain dict (crosses process boundaries)."""
     log = run_one(scn, policy)
-    bad = oracle(scn, log)
+    bad = oracle_all(scn, log)
     key, nontrivial, flags = abstract(log)
-    structural = list(log["anomalies"])
-    if any(l[0][0] == "weird" for l in log["labels"]):
-        structural.append("a worker left its loop in a way the model has no label for")
-    observed_processed: dict[int, list[int]] = {}
-    for c in log["calls"]:
-        if c["end"] in ("ok", "raised") and c["k"] is not None:
-            observed_processed.setdefault(c["k"], []).append(c["seq"])
+    parts = []
+    for name, sub, lg in watcher_logs(scn, log):
+        structural = list(lg["anomalies"])
+        if any(l[0][0] == "weird" for l in lg["labels"]):
+            structural.append("a worker left its loop in a way the model has no label for")
+        observed_processed: dict[int, list[int]] = {}
+        for c in lg["calls"]:
+            if c["end"] in ("ok", "raised") and c["k"] is not None:
+                observed_processed.setdefault(c["k"], []).append(c["seq"])
+        parts.append({"watcher": name, "structural": structural, "outcome": lg["outcome"],
+                      "request": None if structural else trace_request(sub, lg), "processed": observed_processed})
+        if name != "main":
+            pkey, pnt, pflags = abstract(lg)
+            key = key + " || " + pkey
+            nontrivial = nontrivial or pnt
+            flags = {f: flags[f] or pflags[f] for f in flags}
+            flags["second watcher in the same loop"] = True
+    flags.setdefault("second watcher in the same loop", False)
+    max_backlog = max([n for _n, _s, lg in watcher_logs(scn, log) for _l, sn, _t in lg["labels"] if sn is not None for _k, n in sn[2]] or [0])
+    n_deliv = len(log["delivered"]) + (len(log["peer"]["delivered"]) if log.get("peer") else 0)
+    flags["flood (>= 30 events queued for one object)"] = any(
+        sn is not None and any(n >= 30 for _k, n in sn[2]) for _n, _s, lg in watcher_logs(scn, log) for _l, sn, _t in lg["labels"])
     return {"scn": scn, "policy": policy, "oracle": bad, "key": key, "nontrivial": nontrivial, "flags": flags,
-            "structural": structural, "request": None if structural else trace_request(scn, log),
-            "processed": observed_processed, "outcome": log["outcome"], "n_labels": len(log["labels"]),
-            "tie_groups": log["tie_groups"], "n_calls": len(log["calls"]), "n_delivered": len(log["delivered"])}
+            "parts": parts, "max_backlog": max_backlog, "outcome": log["outcome"], "n_labels": len(log["labels"]),
+            "tie_groups": log["tie_groups"], "n_calls": len(log["calls"]), "n_delivered": n_deliv}
 
 
 _PRIVATE_DRIVER = """-- GENERATED by harness/props/c01.py: the C01 handler alone (used only when the shared Driver.lean cannot run
@@ -513,43 +692,44 @@ def _ask(driver: leanio.Driver, reqs: list) -> list:
 
 
 def check_traces(results: list[dict], driver: leanio.Driver) -> list[dict]:
-    """Ask the Lean driver; returns tie failures as dicts {what, replay}."""
+    """Ask the Lean driver; returns tie failures as dicts {what, replay}. Every watcher of a run is its own
+    instance of the LTS (own `streams`, own Scheduler): its trace is replayed separately."""
     fails: list[dict] = []
-    reqs = [r["request"] for r in results if r["request"] is not None]
-    idx = [i for i, r in enumerate(results) if r["request"] is not None]
-    for r in results:
-        for s in r["structural"]:
+    parts = [(r, pt) for r in results for pt in r["parts"]]
+    for r, pt in parts:
+        for s in pt["structural"]:
             fails.append({"what": f"trace outside the model's alphabet: {s}",
-                          "replay": {"scenario": r["scn"], "policy": r["policy"], "reason": s}})
-    if not reqs:
+                          "replay": {"scenario": r["scn"], "policy": r["policy"], "watcher": pt["watcher"], "reason": s}})
+    asked = [(r, pt) for r, pt in parts if pt["request"] is not None]
+    if not asked:
         return fails
-    outs = _ask(driver, reqs)
-    for i, out in zip(idx, outs):
-        r = results[i]
+    outs = _ask(driver, [pt["request"] for _r, pt in asked])
+    for (r, pt), out in zip(asked, outs):
+        base = {"scenario": r["scn"], "policy": r["policy"], "watcher": pt["watcher"]}
         if not (isinstance(out, list) and len(out) == 2 and out[0] == "ok"):
-            fails.append({"what": f"driver answered {out!r}", "replay": {"scenario": r["scn"], "policy": r["policy"]}})
+            fails.append({"what": f"driver answered {out!r}", "replay": base})
             continue
         ans = out[1]
         if not ans.get("accepted"):
             fails.append({"what": f"the model rejects the real trace at label #{ans.get('index')} {ans.get('label')}: "
                                   f"{ans.get('reason')}",
-                          "replay": {"scenario": r["scn"], "policy": r["policy"], "index": ans.get("index"),
-                                     "label": ans.get("label"), "reason": ans.get("reason"), "model_state": ans.get("model"),
-                                     "labels_before": r["request"][2][max(0, (ans.get("index") or 0) - 6):(ans.get("index") or 0) + 1]}})
+                          "replay": dict(base, index=ans.get("index"), label=ans.get("label"), reason=ans.get("reason"),
+                                         model_state=ans.get("model"),
+                                         labels_before=pt["request"][2][max(0, (ans.get("index") or 0) - 6):(ans.get("index") or 0) + 1])})
             continue
-        if r["outcome"] in ("ended", "cancelled", "escalated") and ans["final"].get("measure") != 0:
+        if pt["outcome"] in ("ended", "cancelled", "escalated") and ans["final"].get("measure") != 0:
             fails.append({"what": f"the watcher has finished but the model's termination measure is {ans['final'].get('measure')} != 0",
-                          "replay": {"scenario": r["scn"], "policy": r["policy"], "final": ans["final"]}})
+                          "replay": dict(base, final=ans["final"])})
             continue
         if ans["final"].get("dropped"):
             fails.append({"what": f"the model had to drop an event from the watcher's hand (keys {ans['final']['dropped']}): the real "
                                   f"watcher was cancelled between taking an event and enqueueing it",
-                          "replay": {"scenario": r["scn"], "policy": r["policy"], "final": ans["final"]}})
+                          "replay": dict(base, final=ans["final"])})
             continue
         model_proc = {k: v for k, v in ans["final"]["processed"] if v}
-        if model_proc != {k: v for k, v in r["processed"].items() if v}:
+        if model_proc != {k: v for k, v in pt["processed"].items() if v}:
             fails.append({"what": "model's processed histories differ from the processor call log",
-                          "replay": {"scenario": r["scn"], "policy": r["policy"], "model": model_proc, "impl": r["processed"]}})
+                          "replay": dict(base, model=model_proc, impl=pt["processed"])})
     return fails
 
 
@@ -563,14 +743,15 @@ def _shard(args: tuple) -> dict:
             force = "any"
             if j % 10 == 7:
                 force = [1, 2, None][(j // 10) % 3]
-            scn = gen_scenario(rng, force)
+            scn = gen_scenario(rng, force, FLOODS_T if len(policies) > 2 else FLOODS_Q)
             for pol in policies:
                 results.append(evaluate(scn, pol))
         ties = [] if oracle_only else check_traces(results, leanio.Driver(["C01"]))
     except Exception:  # noqa: BLE001
         return {"crash": traceback.format_exc(), "results": [], "ties": []}
     for r in results:
-        r["request"] = None      # do not ship the traces back
+        for pt in r["parts"]:
+            pt["request"] = None      # do not ship the traces back
     return {"crash": None, "results": results, "ties": ties}
 
 
@@ -589,6 +770,15 @@ def absorb(ctx: Ctx, res: dict, source: str) -> None:
     ctx.count("events", res["n_delivered"])
     ctx.count("outcome", res["outcome"])
     ctx.count("same-instant timer groups", min(res["tie_groups"], 5))
+    ctx.count("watchers in the loop", len(res["parts"]))
+    ctx.count("largest backlog", min(200, 10 * (res.get("max_backlog", 0) // 10)))
+    if any(it.get("rv") is not None for it in scn["stream"]):
+        ctx.count("schedule features", "opaque non-monotone resourceVersions")
+    c = scn.get("cancel") or {}
+    if c.get("soon") is not None:
+        ctx.count("schedule features", "cancelled at the n-th suspension after an event")
+    if len({(o.get("name"), o.get("namespace")) for o in scn["objects"] if "name" in o}) < len([o for o in scn["objects"] if "name" in o]):
+        ctx.count("schedule features", "re-created object (same name, new uid)")
     for f, v in res["flags"].items():
         if v:
             ctx.count("schedule features", f)
@@ -708,8 +898,8 @@ def run(ctx: Ctx) -> None:
         for t in check_traces(corpus_results, ctx.driver):
             ctx.tie_comparisons += 1
             ctx.tie_fail(t["what"], t["replay"])
-        ctx.tie_comparisons += len(corpus_results)
-        ctx.traces += len([r for r in corpus_results if r["request"] is not None])
+        ctx.tie_comparisons += sum(len(r["parts"]) for r in corpus_results)
+        ctx.traces += len([pt for r in corpus_results for pt in r["parts"] if pt["request"] is not None])
     except leanio.LeanError as e:
         ctx.tie_fail(f"Lean driver failed: {e}", {"log": e.log})
     # ---- generated ----------------------------------------------------------------------------------
@@ -727,8 +917,9 @@ def run(ctx: Ctx) -> None:
             raise RuntimeError("C01 shard crashed:\n" + out["crash"])
         for res in out["results"]:
             absorb(ctx, res, "generated")
-        ctx.tie_comparisons += len(out["results"])
-        ctx.traces += len(out["results"]) - len([t for t in out["ties"]])
+        n_parts = sum(len(r["parts"]) for r in out["results"])
+        ctx.tie_comparisons += n_parts
+        ctx.traces += n_parts - len([t for t in out["ties"]])
         for t in out["ties"]:
             if sum(1 for f in ctx.failures if f.kind == "tie") < 50:
                 ctx.tie_fail(t["what"], t["replay"])
@@ -754,6 +945,11 @@ def _neighbours(scn: dict, rng: random.Random) -> dict:
         s.pop("cancel", None)
     if rng.random() < 0.2:
         s["settings"]["exit_timeout"] = 100000
+    if rng.random() < 0.35:
+        # the watcher cancelled at one of its own suspension points right after it was given some event
+        ev_idx = [i for i, it in enumerate(s["stream"]) if "obj" in it]
+        s["cancel"] = {"mode": "after_event", "index": rng.choice(ev_idx), "soon": rng.choice([0, 0, 1, 2])}
+        s["settings"]["exit_timeout"] = 100000
     s["tie_seed"] = rng.randrange(1 << 30)
     return s
 
@@ -770,7 +966,7 @@ def search(ctx: Ctx, broken: list) -> None:
             scn = _neighbours(scn0, rng)
             for pol in POLICIES_T:
                 tried += 1
-                bad = oracle(scn, run_one(scn, pol))
+                bad = oracle_all(scn, run_one(scn, pol))
                 if bad:
                     for what, sig in bad:
                         ctx.oracle_fail(what, {"scenario": scn, "policy": pol, "found_by": "search near a rejected trace"}, sig)
@@ -779,7 +975,7 @@ def search(ctx: Ctx, broken: list) -> None:
         scn = gen_scenario(rng)
         for pol in POLICIES_T:
             tried += 1
-            bad = oracle(scn, run_one(scn, pol))
+            bad = oracle_all(scn, run_one(scn, pol))
             if bad:
                 for what, sig in bad:
                     ctx.oracle_fail(what, {"scenario": scn, "policy": pol, "found_by": "search"}, sig)
